@@ -450,6 +450,33 @@ func c01real(args []string) error {
 				if err != nil {
 					got["pt"] = []int{}
 				}
+			case "decasn1sweep":
+				// the ASN.1 form of a valid C1C3C2 ciphertext with every single byte changed (two masks): DecryptAsn1 must report
+				// an error for each (DER has no byte that is not significant); the unchanged form must decrypt
+				priv := privOf(c["d"].(string))
+				ct := toBytes(intList(c["ct"]))
+				a, err := sm2.CipherMarshal(ct)
+				if err != nil {
+					got["marshal_err"] = err.Error()
+					break
+				}
+				pt, err := sm2.DecryptAsn1(priv, a)
+				got["plain_ok"] = err == nil
+				got["pt"] = ints(pt)
+				accepted := []string{}
+				tried := 0
+				for i := range a {
+					for _, m := range []byte{0x01, 0x80} {
+						b := append([]byte(nil), a...)
+						b[i] ^= m
+						tried++
+						if p2, e := sm2.DecryptAsn1(priv, b); e == nil {
+							accepted = append(accepted, fmt.Sprintf("byte %d of %d ^ %02x (plaintext equal: %v)", i, len(a), m, bytes.Equal(p2, pt)))
+						}
+					}
+				}
+				got["tried"] = tried
+				got["accepted"] = accepted
 			}
 		})
 		if pan != "" {
